@@ -462,7 +462,7 @@ def lexical_cases(rng, quick):
             toks_.append((a + sep, "trailing[%s]" % sep))
     out = []
     for t, klass in toks_:
-        ctxs = rng.sample(LEX_CONTEXTS, 2) if quick else LEX_CONTEXTS
+        ctxs = rng.sample(LEX_CONTEXTS, 2) if quick else rng.sample(LEX_CONTEXTS, 6)
         if quick and klass in ("arithmetic", "signed") or klass.startswith("embedded[-") or klass.startswith("embedded[+"):
             ctxs = LEX_CONTEXTS[:7] if quick else LEX_CONTEXTS
         for c in ctxs:
@@ -538,7 +538,9 @@ def coq_codes(ctx, atoms_by_topo, items, shard=300, fn="codes"):
         si, sh = si_sh
         body = ["From Coq Require Import ZArith List String Bool Ascii.", "Import ListNotations.", prelude,
                 "Definition cases : list (nat * (nat * string * outcome)) := ["]
-        body.append(";\n".join("(%d%%nat, (%d%%nat, %s, %s))" % (ci, ti, cstr(s), coq_outcome(o)) for ci, ti, s, o in sh))
+        # shard-local indices: large nat literals overflow coqc's stack
+        body.append(";\n".join("(%d%%nat, (%d%%nat, %s, %s))" % (j, ti, cstr(s), coq_outcome(o))
+                               for j, (ci, ti, s, o) in enumerate(sh)))
         body.append("].")
         body.append('Definition tag := "CODES"%string.')
         body.append("Set Printing Depth 1000000.")
@@ -547,8 +549,9 @@ def coq_codes(ctx, atoms_by_topo, items, shard=300, fn="codes"):
         return ctx.coqc_text("c12_%s_%d_%d" % (fn, id(items) % 100000, si), "\n".join(body) + "\n", timeout=1200)
 
     res, errors = {}, []
+    sh_index = [[it[0] for it in sh] for sh in shards]
     with ThreadPoolExecutor(max_workers=4) as ex:
-        for rc, out in ex.map(run, list(enumerate(shards))):
+        for si, (rc, out) in enumerate(ex.map(run, list(enumerate(shards)))):
             if rc != 0:
                 errors.append(out[-3000:])
                 continue
@@ -561,7 +564,7 @@ def coq_codes(ctx, atoms_by_topo, items, shard=300, fn="codes"):
                 errors.append("coqc printed %d of %s codes" % (len(pairs), m.group(1)))
                 continue
             for a, b in pairs:
-                res[int(a)] = int(b)
+                res[sh_index[si][int(a)]] = int(b)
     return res, errors
 
 
